@@ -53,7 +53,7 @@ TLD = ['io.github', 'com.example', 'org.project', 'net', 'dev.local', 'io']
 PRINTABLE = [chr(c) for c in range(0x20, 0x7f) if chr(c) not in '"\\']
 # Forced lengths for the first printable names so that every residue of (length + NUL) mod 8 and
 # the block boundaries are always present whatever the seed.
-FORCED_LEN = [1, 6, 7, 8, 9, 14, 15, 16, 17, 2, 3, 4, 5, 23, 24, 31, 32, 39, 40]
+FORCED_LEN = [0, 64, 1, 130, 63, 65, 254, 6, 7, 8, 9, 14, 15, 16, 17, 2, 3, 4, 5, 23, 24, 31, 32, 39, 40]   # 0: the empty name (one NUL is hashed)
 
 UTF8_RANGES = [(0xa1, 0xff), (0x100, 0x17f), (0x391, 0x3c9), (0x410, 0x44f), (0x5d0, 0x5ea),
                (0x3041, 0x3093), (0x4e00, 0x4fff), (0xac00, 0xacff), (0x1f600, 0x1f64f), (0x1d400, 0x1d433)]
@@ -118,6 +118,8 @@ def make_name(rng, index, forced):
     cat = index % 4
     if index == 1:
         return b'io.github.x.Y'
+    if index == 9:
+        return b'\x00abc'   # a name whose first byte is NUL
     if cat == 1:
         return dotted_name(rng)
     if cat == 2:
